@@ -1124,6 +1124,10 @@ Error RACFGBuilder::move_reg_to_stack_arg(InvokeNode* invoke_node, const FuncVal
     default:
       if (TypeUtils::is_vec(dst_type_id) && reg.as<Reg>().is_vec()) {
         stack_ptr.set_size(TypeUtils::size_of(dst_type_id));
+
+        // Vector arguments passed by stack are aligned to their size (16, 32, or 64 bytes), which only holds
+        // if the stack pointer is aligned to that size when the function is called.
+        _func_node->frame().update_call_stack_alignment(TypeUtils::size_of(dst_type_id));
         uint32_t vec_mov_inst_id = pass()._emit_helper.ids().movaps();
 
         if (TypeUtils::is_vec128(dst_type_id)) {
